@@ -23,21 +23,12 @@ open Mb Mb.Sim Mb.SimSpec
 
 variable {σ : Type} (ρ : Oracle σ)
 
-/-- the same arguments with both output filters switched off -/
-def unfiltered (a : Args) : Args := { a with onlyClientEvents := false, onlyNetworkActivity := false }
-
-theorem sameButFilters_unfiltered (a : Args) : sameButFilters a (unfiltered a) := by
-  simp [sameButFilters, unfiltered]
-
-theorem initState_unfiltered (mc ms : List Machine) (sq : SimQueue) (a : Args) (orc : σ) :
-    initState ρ mc ms sq (unfiltered a) orc = initState ρ mc ms sq a orc := rfl
-
 /-- **Filters are projections.**  Without a length cap, for all inputs the filtered run returns
     exactly the sub-sequence of the unfiltered run selected by the filter predicate on events. -/
 theorem C19_filters_are_projections (budget : Nat) (mc ms : List Machine) (sq : SimQueue) (a : Args) (orc : σ)
     (hcap : a.maxTraceLength = 0) :
     (simAdvanced ρ budget mc ms sq a orc).trace =
-      (simAdvanced ρ budget mc ms sq (unfiltered a) orc).trace.filter
+      (simAdvanced ρ budget mc ms sq a.unfiltered orc).trace.filter
         (keepObs a.onlyNetworkActivity a.onlyClientEvents) := by
   unfold simAdvanced
   rw [initState_unfiltered]
@@ -45,17 +36,17 @@ theorem C19_filters_are_projections (budget : Nat) (mc ms : List Machine) (sq : 
   | error f => simp
   | ok st =>
     simp only []
-    have hfu : loopFuel (unfiltered a) budget = loopFuel a budget := rfl
+    have hfu : loopFuel a.unfiltered budget = loopFuel a budget := rfl
     rw [hfu]
-    have hl := loop_filter_indep ρ a (unfiltered a) (sameButFilters_unfiltered a) hcap (loopFuel a budget) st 0 0 0
+    have hl := loop_filter_indep ρ a a.unfiltered (sameButFilters_unfiltered a) hcap (loopFuel a budget) st 0 0 0
     rw [← hl]
     have hgood := loop_stream_sorted ρ a (loopFuel a budget) st 0 0
     cases hs : (loop ρ a (loopFuel a budget) st 0 0).stop with
     | fault f => simp
     | queueEmpty | maxTrace | maxIter | noNormal | loopFuel =>
       simp only []
-      rw [record_eq_filter a _ hgood.2, record_eq_filter (unfiltered a) _ hgood.2]
-      have h1 : (unfiltered a).keep = keep false false := rfl
+      rw [record_eq_filter a _ hgood.2, record_eq_filter a.unfiltered _ hgood.2]
+      have h1 : a.unfiltered.keep = keep false false := rfl
       rw [h1, filter_keep_none]
       exact filter_stream_eq a.onlyNetworkActivity a.onlyClientEvents _ (fun r hr => (hgood.1 r hr).2)
 
@@ -64,7 +55,7 @@ theorem C19_filters_are_projections (budget : Nat) (mc ms : List Machine) (sq : 
 theorem C19_project_model (budget : Nat) (mc ms : List Machine) (sq : SimQueue) (a : Args) (orc : σ)
     (hcap : a.maxTraceLength = 0) :
     (simAdvanced ρ budget mc ms sq a orc).trace =
-      project a.onlyNetworkActivity a.onlyClientEvents 0 (simAdvanced ρ budget mc ms sq (unfiltered a) orc).trace := by
+      project a.onlyNetworkActivity a.onlyClientEvents 0 (simAdvanced ρ budget mc ms sq a.unfiltered orc).trace := by
   rw [C19_filters_are_projections ρ budget mc ms sq a orc hcap]
   simp [project, takeCap]
 
@@ -87,16 +78,13 @@ theorem C19_pickNext_fuel_mono (st : St σ) (fuel : Nat) (h : pickMeasure st < f
     (pickNext fuel st).isSome = true :=
   pickNext_fuel_ok fuel st h
 
-/-- the stream (one entry per iteration) of a run, for stating the bounds -/
-def iterations (o : SimOut σ) : Nat := o.stream.length
-
 /-- **Iteration bound**: with `max_sim_iterations = m > 0` the main loop performs at most `m`
     iterations and the model's loop fuel is never the reason to stop. -/
 theorem C19_iterations_bounded (budget : Nat) (mc ms : List Machine) (sq : SimQueue) (a : Args) (orc : σ)
     (hm : a.maxSimIterations > 0) :
-    iterations (simAdvanced ρ budget mc ms sq a orc) ≤ a.maxSimIterations ∧
+    (simAdvanced ρ budget mc ms sq a orc).stream.length ≤ a.maxSimIterations ∧
     (simAdvanced ρ budget mc ms sq a orc).stop ≠ .loopFuel := by
-  unfold simAdvanced iterations
+  unfold simAdvanced
   cases hi : initState ρ mc ms sq a orc with
   | error f => simp
   | ok st =>
@@ -147,24 +135,9 @@ theorem C19_trace_sorted (budget : Nat) (mc ms : List Machine) (sq : SimQueue) (
 /-! Non-vacuity: a concrete two-packet run without machines (state built directly, so that the
     kernel can evaluate it): 7 iterations, 3 of them client events; the stream is the same for
     both filter settings. -/
-section example_
-def exArgs : Args :=
-  { network := ⟨10, none⟩, maxTraceLength := 0, maxSimIterations := 0, continueAfterAllNormal := false,
-    onlyClientEvents := true, onlyNetworkActivity := false, fpClient := 0, fbClient := 0, fpServer := 0, fbServer := 0 }
-def exOracle : Oracle Unit := ⟨fun u => (0, u), fun _ u => (0, u)⟩
-def exSide : Side Unit :=
-  { fw := Fw.init exOracle [] 0 0 0 (), schedAction := [], schedTimer := [], blockingUntil := none, blockingBypassable := false }
-def exState : Option (St Unit) :=
-  let sq := parseTrace [(0, true), (1000, false)] 10
-  match Bottleneck.new ⟨10, none⟩ 1000000000 sq.maxPps with
-  | .ok net => some { sq := sq, client := exSide, server := exSide, net := net, now := 0, orc := () }
-  | .error _ => none
-
 example : (match exState with
     | some st => ((loop exOracle exArgs 100 st 0 0).stream.length,
                   ((loop exOracle exArgs 100 st 0 0).stream.filter exArgs.keep).length,
-                  (loop exOracle (unfiltered exArgs) 100 st 0 0).stream.length)
+                  (loop exOracle exArgs.unfiltered 100 st 0 0).stream.length)
     | none => (0, 0, 0)) = (7, 3, 7) := by decide
-end example_
-
 end Mb.C19
